@@ -29,7 +29,7 @@ CLAUSES = {
     "C01": ["C01_Pos", "C01_Mode", "C01_Carries"],
     "C02": ["C02_Safe", "C02_Raises", "C02_OnlyDoc"],
     "C03": ["C03_Words", "C03_Reject", "C03_NaN"],
-    "C05": ["C05_NoEmit", "C05_NoEffect"],
+    "C05": ["C05_NoEmit", "C05_NoEffect", "C05_AsIfNever"],
     "C06": ["C06_Off"],
     "C07": ["C07_Tool", "C07_Coolant", "C07_Modal", "C07_Temps", "C07_Params"],
     "C20": ["C20_Count", "C20_Geometry", "C20_Params", "C20_Extrusion", "C20_ExtrusionF14"],
@@ -288,7 +288,7 @@ def replay_behaviours(files, limit=None):
 CONTROL_BASE = [
     {"call": "set_bounds", "name": "feed-rate", "lo": 100.0, "hi": 1000.0},
     {"call": "set_bounds", "name": "axes", "lo": [0.0, 0.0, 0.0], "hi": [20.0, 20.0, 20.0]},
-    {"call": "add_probe_hook"},
+    {"call": "add_probe_hook", "style": 0},
     {"call": "move", "ax": [1.0, 2.0, None], "F": 500.0, "E": 1.0},          # 4
     {"call": "move", "ax": [50.0, None, None]},                               # 5 rejected (box)
     {"call": "move", "ax": [2.0, None, None], "F": float("nan")},             # 6 rejected (NaN)
@@ -473,6 +473,55 @@ def validate_traces(traces, shards=12):
     return failures, done, results
 
 
+def as_if_never(traces, descs, limit=80):
+    """C05_AsIfNever (AsIfNeverTrace.tla): every recorded history with refused calls is run again without them; the other
+    calls must behave exactly as before.  Returns (failures as (trace index, step, clause, sig), statistics)."""
+    from .common import workdir, write_json
+    recs, idx = [], []
+
+    def slim(e):
+        return {"call": e["call"], "out": e["out"], "lines": e["lines"], "rep": e["rep"]}
+    for i, (t, ds) in enumerate(zip(traces, descs)):
+        if len(idx) >= limit:
+            break
+        if len(ds) != len(t["ev"]) or t["meta"].get("xf"):
+            continue
+        ref = {k for k, e in enumerate(t["ev"]) if e["out"] != "ok" and not e["lines"] and not e.get("fault")}
+        if not ref:
+            continue
+        keep = [k for k in range(len(ds)) if k not in ref]
+        t2 = builder_drv.run_descs([ds[k] for k in keep], dp=t["meta"]["dp"], exact=t["meta"]["exact"])
+        recs.append({"a": [slim(t["ev"][k]) for k in keep], "b": [slim(e) for e in t2["ev"]], "nrefused": len(ref)})
+        idx.append((i, keep))
+    if not recs:
+        return [], {"histories": 0, "refused_calls_left_out": 0}
+    path = os.path.join(workdir(), "asifnever_%d.json" % (int(time.time() * 1000) % 100000))
+    write_json(path, recs)
+    r = tlc.validate("AsIfNeverTrace", "SPECIFICATION Spec\n", path, tag="asif")
+    if r.errors:
+        raise MachineryError("AsIfNeverTrace failed: %s\n%s" % (r.errors[:2], r.stdout[-1500:]))
+    if len([t for t in r.tuples if t and t[0] == "D"]) != len(recs):
+        raise MachineryError("AsIfNeverTrace judged fewer histories than it was given")
+    fails = []
+    for t in r.tuples:
+        if t and t[0] == "F":
+            i, keep = idx[t[1] - 1]
+            d = t[2]
+            step = keep[d - 1] + 1 if 1 <= d <= len(keep) else len(traces[i]["ev"])
+            fails.append((i, step, "C05_AsIfNever", ""))
+    # the binding is live: a run in which one kept call is given another position must be reported
+    bad = json.loads(json.dumps(recs[:1]))
+    bad[0]["b"][-1]["rep"]["pos"][0]["v"] += 1000
+    bad[0]["b"][-1]["rep"]["pos"][0]["k"] = "n"
+    p2 = os.path.join(workdir(), "asifnever_ctl.json")
+    write_json(p2, bad)
+    r2 = tlc.validate("AsIfNeverTrace", "SPECIFICATION Spec\n", p2, tag="asifctl")
+    if not [t for t in r2.tuples if t and t[0] == "F"]:
+        raise MachineryError("AsIfNeverTrace accepted a run whose last call ended elsewhere")
+    return fails, {"histories": len(recs), "refused_calls_left_out": sum(x["nrefused"] for x in recs),
+                   "calls_compared": sum(len(x["a"]) for x in recs), "differing_histories": len(fails), "planted_difference_detected": True}
+
+
 def run(pid, tier, replay_path=None):
     t0 = time.time()
     sd = seed()
@@ -566,6 +615,11 @@ def run(pid, tier, replay_path=None):
                 % (gv["impl_mismatches"], gv["disagreements_with_Machine"], gv["events_under_named_deviation_HomeZeroIsHomeAll"]))
     controls = [] if replay_path else make_controls(pid)
     failures, done, results = validate_traces(traces + controls)
+    asif = None
+    if pid == "C05":
+        fs, asif = as_if_never(traces[:nreal], descs, limit=400 if thorough else 80)
+        failures = failures + fs
+        cov["as_if_never"] = asif
 
     # negative controls: every planted violation must be seen, with the right clause
     deferred = []          # machinery complaints: raised below unless real executions already violate the property
@@ -583,6 +637,8 @@ def run(pid, tier, replay_path=None):
     for i in range(nreal):
         for c in clauses:
             counts[c] += done[i][1].get(c, 0)
+    if asif is not None:
+        counts["C05_AsIfNever"] = asif["refused_calls_left_out"]
     if not replay_path:
         idle = [c for c, n in counts.items() if n == 0]
         if idle:
